@@ -65,6 +65,9 @@ impl Part for Wild {
         let (item, labels) = gen_wild(&mut t, &self.opts);
         judge(item.render(), labels, ctx)
     }
+    fn run_text(&self, text: &str, ctx: &Ctx) -> Option<CaseReport> {
+        Some(judge(text.to_string(), vec![], ctx))
+    }
 }
 
 impl Part for Soup {
@@ -91,6 +94,9 @@ impl Part for Soup {
         let (item, labels) = gen_soup_item(&mut t);
         judge(item.render(), labels, ctx)
     }
+    fn run_text(&self, text: &str, ctx: &Ctx) -> Option<CaseReport> {
+        Some(judge(text.to_string(), vec![], ctx))
+    }
 }
 
 impl Part for Valid {
@@ -116,5 +122,8 @@ impl Part for Valid {
         let mut t = Tape::new(tape);
         let (item, labels) = crate::gen::gen_item(&mut t, &self.opts);
         judge(item.render(), labels, ctx)
+    }
+    fn run_text(&self, text: &str, ctx: &Ctx) -> Option<CaseReport> {
+        Some(judge(text.to_string(), vec![], ctx))
     }
 }
